@@ -203,8 +203,8 @@ func (t *tr) stmts(list []ast.Stmt, ind string) string {
 				}
 			}
 		}
-		if s.Tok == token.DEFINE && len(s.Lhs) == 1 && len(s.Rhs) == 1 && t.closure {
-			if id, ok := s.Lhs[0].(*ast.Ident); ok {
+		if s.Tok == token.DEFINE && len(s.Lhs) == 1 && len(s.Rhs) == 1 {
+			if id, ok := s.Lhs[0].(*ast.Ident); ok && id.Name != t.state && id.Name != "buf" {
 				if _, isCall := s.Rhs[0].(*ast.CallExpr); !isCall {
 					return "let " + id.Name + " := " + t.expr(s.Rhs[0]) + "\n" + ind + t.stmts(rest, ind)
 				}
